@@ -120,6 +120,16 @@ CLAIMED = {
             'Trusted: the history-free reference is the same loader with emptied caches, cross-checked against truly fresh processes. '
             'Edits that keep the mtime are out of scope. Real-library family: 10 (thorough 40) process histories.',
             'DESIGN.md §3 C12'),
+    'C11': ('exploration',
+            'exhaustive pass over all library items plus bounded exhaustive enumeration of generated items on the real item parser, reference side conditions + finite-model oracle',
+            'Every item of the 43 library files is parsed in its own context, its extensions are type-checked over the extended '
+            'signature and exported/displayed and parsed back (file and editor forms, in the context before the item). Generated '
+            'definitions (every argument list and right-hand side of a grammar containing self-reference, extra free variables, '
+            'non-variable and repeated arguments, absent type variables, other type instances, overloaded names), two-step '
+            're-definitions, inductive predicates/functions/datatypes over fresh and overloaded names: an accepted definition must '
+            'satisfy the four side conditions and admit an interpretation in every finite model.',
+            'Trusted: reference side conditions and mc/holsem.py. Generated families are small grammars, not all of HOL.',
+            'DESIGN.md §3 C11'),
 }
 
 PENDING_REASON = 'check not built yet in this round (planned, see DESIGN.md §3/§7); not claimed until its machinery exists'
